@@ -173,4 +173,10 @@ func controlsState(cp *Prog, r *Report) {
 			conts:   []struct{ fn, after fnRef }{{fnRef{"reuse", "Wrapper", "Next"}, fnRef{"reuse", "Wrapper", "Prepare"}}},
 			allowed: map[string]string{"scratch.hint": "growth hint", "mapper.idx": "only decisive when valid", "mapper.m": "scratch capacity"}})
 	}, "reuse.Wrapper/(*reuse.Wrapper).WrapBad/Wrapper.total", "reuse.Wrapper/(*reuse.Wrapper).WrapBad/scratch.leftover")
+	expectControl(r, "R-STATE(stack locals)", func(cr *Report) {
+		fx := NewFX(cp)
+		fx.Run()
+		ruleState(cp, cr, fx, stateCfg{name: "reuse.Wrapper2", types: []typeRef{{"reuse", "Wrapper2"}, {"reuse", "wcfg"}},
+			entries: []fnRef{{"reuse", "Wrapper2", "RunGood"}, {"reuse", "Wrapper2", "RunBad"}}, allowed: map[string]string{}})
+	}, "reuse.Wrapper2/(*reuse.Wrapper2).RunBad/wcfg.dir")
 }
